@@ -76,6 +76,11 @@ func rawOp(w *world.World, o world.Op) func() {
 		return func() {
 			w.SendRawApp(&si.ApplicationRequest{RmID: world.RMID, Remove: []*si.RemoveApplicationRequest{{ApplicationID: o.A, PartitionName: world.PartitionName}}})
 		}
+	case "NODE_ADD":
+		n := scn.Node(o.A)
+		return func() {
+			w.SendRawNode(&si.NodeRequest{RmID: world.RMID, Nodes: []*si.NodeInfo{w.RawNode(n.ID, si.NodeInfo_CREATE, n.Cap)}})
+		}
 	case "NODE_REMOVE", "NODE_DRAIN":
 		action := si.NodeInfo_DECOMISSION
 		if o.K == "NODE_DRAIN" {
@@ -223,7 +228,57 @@ func c14Base() *world.Scenario {
 	}
 }
 
+// c14Goroutine names the production goroutine that executes an op. The core runs exactly one goroutine of each
+// kind (scheduler.StartService: one handler each for allocation/application events, node events and infrastructure
+// events, one scheduling loop, ...), so a scenario never runs two threads of the same kind: their interleavings
+// do not exist in production. Timers and REST handlers are goroutines of their own.
+func c14Goroutine(k string) string {
+	switch k {
+	case "ASK", "ASK_BOUND", "RELEASE", "CONFIRM_ALL", "APP_ADD", "APP_REMOVE":
+		return "allocation and application event handler"
+	case "NODE_ADD", "NODE_REMOVE", "NODE_DRAIN":
+		return "node event handler"
+	case "CONFIG", "REMOVE_PARTITION":
+		return "infrastructure event handler"
+	case "SCHEDULE":
+		return "scheduling loop"
+	case "QUOTA_PREEMPT":
+		return "quota preemption loop"
+	case "CLEAN_QUEUES":
+		return "partition manager"
+	case "HEALTH":
+		return "health checker"
+	}
+	return "" // TIMER_PH, TIMER_STATE, REST: any number
+}
+
 func c14Scenarios() []c14Scenario {
+	all := c14ScenariosUnchecked()
+	for _, sc := range all {
+		seen := map[string]int{}
+		for i, ops := range sc.Threads {
+			kinds := map[string]bool{}
+			for _, o := range ops {
+				kinds[c14Goroutine(o.K)] = true
+			}
+			if len(kinds) != 1 {
+				panic("c14: thread mixes goroutine kinds in " + sc.Name)
+			}
+			for k := range kinds {
+				if k == "" {
+					continue
+				}
+				if j, dup := seen[k]; dup {
+					panic(fmt.Sprintf("c14: scenario %s runs the %s twice (threads %d and %d)", sc.Name, k, j, i))
+				}
+				seen[k] = i
+			}
+		}
+	}
+	return all
+}
+
+func c14ScenariosUnchecked() []c14Scenario {
 	mk := func(name string, prefix []world.Op, threads ...[]world.Op) c14Scenario {
 		s := c14Base()
 		s.Name = "c14-" + name
@@ -246,6 +301,9 @@ func c14Scenarios() []c14Scenario {
 		mkPreempt("S4-preemption-release-rest"),
 		mkPreempt5("S13-multi-victim-preemption-release"),
 		mkPreemptPH("S14-placeholder-victims-vs-timeout"),
+		mkQuotaPreempt("S18-quota-preemption-vs-schedule-release"),
+		mk("S19-node-registration-vs-schedule", []world.Op{op("NODE_ADD", "n1"), op("APP_ADD", "app1"), op("APP_ADD", "app2"), op("ASK", "a1"), op("ASK", "a2"), op("ASK", "b1")},
+			o("NODE_ADD", "n2"), o("SCHEDULE"), o("REST")),
 		mkMaxApps("S15-maxapps-restart-vs-schedule"),
 		mkLifecycle("S16-completing-timer-vs-new-ask"),
 		mkUGMReload("S17-limits-reload-vs-schedule"),
@@ -269,11 +327,18 @@ func mkPreempt(name string) c14Scenario {
 	return c14Scenario{Name: name, Scn: s, Threads: [][]world.Op{{op("SCHEDULE")}, {op("RELEASE", "b1")}, {op("REST")}}}
 }
 
-// a preemption that needs three victims || release of one of the older victim candidates || a placeholder style release
+// a preemption that needs three victims || release of two of the victim candidates (one handler, in order) || REST reads
 func mkPreempt5(name string) c14Scenario {
 	s := scnPreemptG5("c14-" + name)
 	s.Prefix = append(s.Prefix, op("ASK", "a2"))
-	return c14Scenario{Name: name, Scn: s, Threads: [][]world.Op{{op("SCHEDULE")}, {op("RELEASE", "b3")}, {op("RELEASE", "b1")}}}
+	return c14Scenario{Name: name, Scn: s, Threads: [][]world.Op{{op("SCHEDULE")}, {op("RELEASE", "b3"), op("RELEASE", "b1")}, {op("REST")}}}
+}
+
+// quota preemption (the queue's max was lowered below its usage) || scheduling cycle || release of one of the tasks
+func mkQuotaPreempt(name string) c14Scenario {
+	s := scnPreempt("c14-"+name, true)
+	s.Prefix = append(s.Prefix, world.Op{K: "CONFIG", N: 1}, op("ASK", "a1"))
+	return c14Scenario{Name: name, Scn: s, Threads: [][]world.Op{{op("QUOTA_PREEMPT")}, {op("SCHEDULE")}, {op("RELEASE", "b2")}}}
 }
 
 // max applications: the scheduling cycle starts a waiting application || the Completing one is restarted by a new ask ||
